@@ -22,7 +22,7 @@ func init() {
 		[]string{"uint8 arithmetic wraps"},
 		runC09)
 	register("C10",
-		"GBNHS-1: in serverHandshake the N echoed in the SYN reply and the argument of setN are the same value, read from the N field of a received PacketSYN and proved <= 254; the 'resent' shortcut can only be taken after a SYN was processed. GBNHS-2: in clientHandshake the SYNACK is sent only under respSYN.N == cfg.n and the unequal leg returns an error. GBNHS-3: while waiting for SYN a successfully parsed non-SYN packet cannot complete the handshake without another receive (client: any type; server: except SYNACK/DATA after a restart). GBNHS-4: NewClientConn rejects n == 255 before the config is built. Not decided: convergence under loss/duplication/stale packets and success once the transport behaves (liveness).",
+		"GBNHS-1: in serverHandshake the N echoed in the SYN reply and the argument of setN are the same value, read from the N field of a received PacketSYN and proved <= 254; the 'resent' shortcut can only be taken after a SYN was processed. GBNHS-2: in clientHandshake the SYNACK is sent only under respSYN.N == cfg.n and the unequal leg returns an error. GBNHS-3: while waiting for SYN a successfully parsed non-SYN packet cannot complete the handshake without another receive (client: any type; server: except SYNACK/DATA after a restart). GBNHS-4: NewClientConn rejects n == 255 before the config is built. GBNHS-5: in both handshake functions every blocking wait on the local packet channel is preceded - from function entry and from the point where the previous packet was taken - by a send attempt on the local token channel that lets the reader goroutine perform the next receive (so a stale packet that is ignored does not leave the handshake waiting for a timeout). Not decided: convergence under loss/duplication/stale packets and success once the transport behaves (liveness).",
 		nil,
 		runC10)
 }
@@ -1077,6 +1077,87 @@ func runC10(c *Checker) {
 		ruleNonSynIgnored(c, fn)
 	}
 	c.floor("GBNHS-3", 2)
+
+	// ---- GBNHS-5: the handshake reader is re-armed before every wait for a packet ----
+	for _, fn := range []*ssa.Function{ch, sh} {
+		ruleReaderRearmed(c, fn)
+	}
+	c.floor("GBNHS-5", 4)
+}
+
+// ruleReaderRearmed: the handshake functions read the transport through a helper
+// goroutine that performs one receive per token on the local recvNext channel.
+// Before every blocking wait on recvChan - from function entry and after every
+// packet taken from recvChan - a (non-blocking) send on recvNext must have been
+// attempted, otherwise the helper stays parked and the wait can only time out.
+func ruleReaderRearmed(c *Checker, fn *ssa.Function) {
+	w := c.w
+	localChan := func(v ssa.Value, elem func(types.Type) bool) bool {
+		for _, x := range expandValues(v) {
+			mk, ok := unwrapLoadAlloc(x).(*ssa.MakeChan)
+			if !ok || mk.Parent() != fn {
+				return false
+			}
+			ch, ok := mk.Type().Underlying().(*types.Chan)
+			if !ok || !elem(ch.Elem()) {
+				return false
+			}
+		}
+		return true
+	}
+	isBytes := func(t types.Type) bool {
+		sl, ok := t.Underlying().(*types.Slice)
+		return ok && types.Identical(sl.Elem(), types.Typ[types.Byte])
+	}
+	isInt := func(t types.Type) bool { b, ok := t.Underlying().(*types.Basic); return ok && b.Info()&types.IsInteger != 0 }
+	type wait struct {
+		sel  *ssa.Select
+		body *ssa.BasicBlock
+	}
+	var waits []wait
+	rearm := map[ssa.Instruction]bool{}
+	allInstrs(fn, func(in ssa.Instruction) {
+		sel, ok := in.(*ssa.Select)
+		if !ok {
+			return
+		}
+		cases, _ := w.selectCases(sel)
+		for _, sc := range cases {
+			if !sc.IsSend && sel.Blocking && localChan(sc.Chan, isBytes) {
+				waits = append(waits, wait{sel, sc.Body})
+			}
+			if sc.IsSend && localChan(sc.Chan, isInt) {
+				rearm[sel] = true
+			}
+		}
+	})
+	name := fnName(fn)
+	if len(waits) == 0 || len(rearm) == 0 {
+		c.fail("GBNHS-5", name+"|shape", fn.Pos(), fmt.Sprintf("expected blocking waits on the local packet channel and re-arm sends on the local token channel, found %d / %d", len(waits), len(rearm)))
+		return
+	}
+	avoid := func(in ssa.Instruction) bool { return rearm[in] }
+	for i, wt := range waits {
+		c.decide(!pathFromEntry(fn, wt.sel, avoid), "GBNHS-5", fmt.Sprintf("%s|wait-%d|armed from entry", name, i+1), instrPos(wt.sel),
+			"every path from the start of the handshake to this wait passes a send on recvNext",
+			"the handshake can wait for a packet before the reader goroutine was told to receive one")
+		bad := ""
+		for j, to := range waits {
+			var reach bool
+			if wt.body != nil {
+				reach = pathFromBlockEntry(wt.body, to.sel, avoid)
+			} else {
+				reach = pathExists(wt.sel, to.sel, avoid)
+			}
+			if reach {
+				bad = fmt.Sprintf("wait-%d at %s", j+1, w.pos(instrPos(to.sel)))
+				break
+			}
+		}
+		c.decide(bad == "", "GBNHS-5", fmt.Sprintf("%s|wait-%d|re-armed after a packet was taken", name, i+1), instrPos(wt.sel),
+			"after a packet is taken from recvChan every path to the next wait passes a send on recvNext",
+			"after a packet (e.g. a stale non-SYN packet of an earlier connection) was consumed here, "+bad+" is reached without signalling the reader: nothing is received until the handshake timeout fires, and the extra SYN/SYN-reply it causes can tear the new connection down")
+	}
 }
 
 // ruleNonSynIgnored: after a successful Deserialize in the "waiting for SYN" position,
